@@ -331,9 +331,15 @@ func (c *Cluster) canReFastForward(a *SimNode, probe bool) bool {
 			best, bestFrame = b.Index(), f
 		}
 	}
-	if bestFrame == nil || best <= a.node.GetLastBlockIndex() {
+	if bestFrame == nil || (best <= a.node.GetLastBlockIndex() && !c.cfg.BackwardReFF) {
 		return false
 	}
+	if best <= a.node.GetLastBlockIndex() && probe {
+		// the anchor lags the tip: a node that is up to date resets itself to a
+		// block below its own last block
+		c.stats.probe("re-fast-forward-backwards")
+	}
+	a.expectedAnchor = best
 	// all of a's own events must be covered by the frame
 	maxOwn := -1
 	if r, ok := bestFrame.Roots[a.pubHex]; ok && r != nil {
@@ -366,6 +372,13 @@ func (c *Cluster) opReFastForward(s *Step) {
 	c.stats.probe("re-fast-forward")
 	a.blocksBeforeFF = a.node.GetLastBlockIndex()
 	a.node.SimTransition(_state.CatchingUp)
+	want := a.expectedAnchor
 	err := a.node.SimFastForward()
+	if err == nil && a.running() && !c.hostileSeen && c.cfg.Byz == 0 {
+		// every reachable babbling peer answered; the node takes the highest anchor
+		if got := a.node.GetLastBlockIndex(); got != want {
+			c.violate("C02", "consecutive", "last-block-is-not-the-anchor-after-reset", "node %d reset itself from the anchor block %d (it had blocks up to %d) but reports last block index %d: the blocks it delivers from now on do not follow the anchor", a.idx, want, a.blocksBeforeFF, got)
+		}
+	}
 	c.onFastForwardDone(a, err)
 }
